@@ -84,6 +84,18 @@ def shape_modules(rng, tier):
          "data": [{"mode": "active" if k % 3 else "passive", "offset": ["i32.const", b32(k * 7)], "bytes": [k % 256] * (k % 11)} for k in range(nd)],
          "datacount": True, "exports": [{"name": "f", "kind": "func", "idx": 0}, {"name": "memory", "kind": "memory", "idx": 0}]}
     mods.append(("data-%d" % nd, m))
+    # every vector length in a range: br_table targets, parameters, locals groups, call arguments (fixed-size inline
+    # buffers and growth thresholds of the translator sit at particular lengths)
+    rngs = list(range(0, 41)) + [63, 64, 65, 127, 128, 129, 255, 256, 257]
+    types = [{"p": ["i32"], "r": ["i32"]}]
+    funcs = []
+    for n in rngs:
+        funcs.append({"type": 0, "locals": [["i64", 1]] * (n % 9),
+                      "body": [["block", ""], ["local.get", 0], ["br_table", [0] * n, 0], ["end"], ["i32.const", b32(n)], ["end"]]})
+    for n in list(range(0, 41)) + [64, 65, 100]:
+        types.append({"p": ["i32", "i64", "f32", "f64"][:0] + [["i32", "i64", "f32", "f64"][k % 4] for k in range(n)], "r": []})
+        funcs.append({"type": len(types) - 1, "locals": [], "body": [["end"]]})
+    mods.append(("vectorsizes", {"types": types, "funcs": funcs, "exports": [{"name": "f%d" % k, "kind": "func", "idx": k} for k in range(0, len(funcs), 7)]}))
     # one module with every section kind (the directed module of checks/c08.py), with a name section: swept byte by byte
     src = open(os.path.join(os.path.dirname(os.path.abspath(__file__)), "c08.py")).read().replace("main_wrap(main)", "")
     ns = {"__file__": os.path.join(os.path.dirname(os.path.abspath(__file__)), "c08.py"), "__name__": "borrowed_c08"}
@@ -144,8 +156,13 @@ def main():
         plain = common.build_w2c2(os.path.join(wd, "plain"), flags=("-O2",), name="w2c2plain")
         mods = shape_modules(rng, tier)
         jobs = []
+        # the all-sections module is swept a second time with every LEB128 field padded to its maximum length
+        mods = mods + [("allsections-padded", dict([m_ for n_, m_ in mods if n_ == "allsections"][0], **{"__choices": {"padall": 1}}))]
         for name, m in mods:
-            data = wasm_encode.encode(m)
+            ch = m.get("__choices")
+            if ch:
+                m = {k_: v_ for k_, v_ in m.items() if k_ != "__choices"}
+            data = wasm_encode.encode(m, ch)
             bounds = list(wasm_encode.encode.last_boundaries)
             nfuncs = len(m.get("funcs", []))
             for o in option_vectors(rng, nfuncs, tier):
@@ -156,10 +173,10 @@ def main():
             for bnd in bounds:
                 cuts |= {bnd - 1, bnd, bnd + 1}
             cuts |= set(range(1, len(data), max(1, len(data) // (12 if tier == "quick" else 200))))
-            if (tier != "quick" and len(data) <= 2048) or name == "allsections":
+            if (tier != "quick" and len(data) <= 2048) or name.startswith("allsections"):
                 cuts |= set(range(1, len(data)))
             cuts = sorted(c for c in cuts if 0 < c < len(data))
-            if tier == "quick" and len(cuts) > 40 and name != "allsections":
+            if tier == "quick" and len(cuts) > 40 and not name.startswith("allsections"):
                 cuts = sorted(rng.sample(cuts, 40))
             for c in cuts:
                 jobs.append((name, data[:c], c, "prefix", rng.choice(option_vectors(rng, nfuncs, "quick")[:3]), "plain"))
